@@ -28,6 +28,7 @@ type RPC struct {
 	Handler  []string `json:"handler"`
 	Handler2 []string `json:"handler2,omitempty"` // spawned by the handler ("go")
 	Timeout  string   `json:"timeout,omitempty"`  // this call's own deadline (duration from the virtual now), e.g. "1h"
+	Nested   bool     `json:"nested,omitempty"`   // made from inside another call's handler (op "N<i>"), with that handler's context
 }
 
 // Scenario is one closed system to explore.
